@@ -52,6 +52,8 @@ func main() {
 	govs := flag.String("govs", "", "comma separated package paths (relative to the module) for the full rewrite")
 	vfs := flag.String("vfs", "", "comma separated package paths for the file-system seam only")
 	repo := flag.String("repo", "/repo", "repository root")
+	vroot := flag.String("vroot", "/verif", "verification tree root")
+	vpkgs := flag.String("vpkg", "", "comma separated import paths inside the verif module for the full rewrite (shim-conformance programs)")
 	var adds multi
 	flag.Var(&adds, "add", "PKGDIR=FILE: add FILE to the package directory (relative to the module)")
 	flag.Parse()
@@ -85,6 +87,20 @@ func main() {
 	if err != nil {
 		die("load: %v", err)
 	}
+	if *vpkgs != "" {
+		vcfg := *cfg
+		vcfg.Dir = *vroot
+		var vp []string
+		for _, p := range strings.Split(*vpkgs, ",") {
+			mode[p] = "govs"
+			vp = append(vp, p)
+		}
+		more, err := packages.Load(&vcfg, vp...)
+		if err != nil {
+			die("load: %v", err)
+		}
+		pkgs = append(pkgs, more...)
+	}
 	overlay := map[string]string{}
 	os.MkdirAll(*out, 0o755)
 	nfiles := 0
@@ -104,7 +120,7 @@ func main() {
 			if err := format.Node(&buf, pkg.Fset, f); err != nil {
 				die("format %s: %v", name, err)
 			}
-			dst := filepath.Join(*out, strings.ReplaceAll(strings.TrimPrefix(name, *repo+"/"), "/", "__"))
+			dst := filepath.Join(*out, strings.ReplaceAll(strings.TrimPrefix(strings.TrimPrefix(name, *repo+"/"), *vroot+"/"), "/", "__"))
 			if err := os.WriteFile(dst, buf.Bytes(), 0o644); err != nil {
 				die("%v", err)
 			}
